@@ -17,6 +17,8 @@ var checks = map[string]func(*engine.Report){
 	"C09": engine.CheckC09,
 	"C13": engine.CheckC13,
 	"C18": engine.CheckC18,
+	"C15": engine.CheckC15,
+	"C16": engine.CheckC16,
 	"C02": engine.CheckC02,
 	"C07": engine.CheckC07,
 	"C10": engine.CheckC10,
